@@ -9174,7 +9174,7 @@ class SVG(Group):
         use = 0
         clip = 0
         root = context
-        styles = {}
+        styles = []  # (selector, declarations) in the order of the style sheets
         stack = []
 
         values = {
@@ -9218,33 +9218,33 @@ class SVG(Group):
                 attributes[SVG_ATTR_TAG] = tag
 
                 # Split any Style block elements into parts; priority medium
-                style = ""
-                if "*" in styles:  # Select all.
-                    style += styles["*"]
-                if tag in styles:  # selector type
-                    style += styles[tag]
-                if SVG_ATTR_ID in attributes:  # Selector id #id
-                    svg_id = attributes[SVG_ATTR_ID]
-                    css_tag = "#%s" % svg_id
-                    if css_tag in styles:
-                        if len(style) != 0:
-                            style += ";"
-                        style += styles[css_tag]
-                if SVG_ATTR_CLASS in attributes:  # Selector class .class
-                    for svg_class in attributes[SVG_ATTR_CLASS].split(" "):
-                        css_tag = ".%s" % svg_class
-                        if css_tag in styles:
-                            if len(style) != 0:
-                                style += ";"
-                            style += styles[css_tag]
-                        css_tag = "%s.%s" % (
-                            tag,
-                            svg_class,
-                        )  # Selector type/class type.class
-                        if css_tag in styles:
-                            if len(style) != 0:
-                                style += ";"
-                            style += styles[css_tag]
+                # Matching rules apply in order of specificity (type < class < id), then in the order of the sheet.
+                svg_id = attributes.get(SVG_ATTR_ID)
+                svg_classes = attributes.get(SVG_ATTR_CLASS, "").split()
+                matching = []
+                for rule_index, (css_tag, declarations) in enumerate(styles):
+                    if css_tag == "*":  # Select all.
+                        specificity = 0
+                    elif css_tag == tag:  # selector type
+                        specificity = 1
+                    elif css_tag.startswith("#"):  # Selector id #id
+                        if svg_id is None or css_tag[1:] != svg_id:
+                            continue
+                        specificity = 100
+                    elif css_tag.startswith("."):  # Selector class .class
+                        if css_tag[1:] not in svg_classes:
+                            continue
+                        specificity = 10
+                    elif "." in css_tag:  # Selector type/class type.class
+                        css_type, css_class = css_tag.split(".", 1)
+                        if css_type != tag or css_class not in svg_classes:
+                            continue
+                        specificity = 11
+                    else:
+                        continue
+                    matching.append((specificity, rule_index, declarations))
+                matching.sort()
+                style = ";".join([declarations for _, _, declarations in matching])
                 # Split style element into parts; priority highest
                 if SVG_ATTR_STYLE in attributes:
                     if len(style) != 0:
@@ -9556,13 +9556,7 @@ class SVG(Group):
                         key = key.strip()
                         value = value.strip()
                         for selector in key.split(","):  # Can comma select subitems.
-                            sel = selector.strip()
-                            if sel not in styles:
-                                styles[sel] = value
-                            else:
-                                if not styles[sel].endswith(";"):
-                                    styles[sel] += ";"
-                                styles[sel] += value
+                            styles.append((selector.strip(), value))
                 elif SVG_TAG_CLIPPATH == tag:
                     clip -= 1
                 elif SVG_TAG_USE == tag:
